@@ -155,6 +155,47 @@ func checkInput(t hx.TB, test, x string, others []string, K int) {
 			hx.Fail(t, test, "ll", x, "entry point %s gave %s, ParseString gave %s", name, short(got.digest()), short(first.digest()))
 		}
 	}
+	// The module belongs to the caller once the parser has returned: the storage the input came from is the
+	// caller's to reuse. A bytes.Buffer is reset and refilled (here: with another input, which is parsed
+	// too), a byte slice is overwritten, the file is rewritten; the held modules must still print as before.
+	if first.ok {
+		other := "@verif.other = global i64 7\n"
+		if len(others) > 0 {
+			other = others[0]
+		}
+		var bb bytes.Buffer
+		bb.Grow(len(x) + len(other) + 64)
+		bb.WriteString(x)
+		raw := []byte(x)
+		held := map[string]*ir.Module{}
+		if p := lx.Guard(func() {
+			held["Parse(*bytes.Buffer), buffer reset and refilled with another input that is parsed too"], _ = asm.Parse(path, &bb)
+			bb.Reset()
+			bb.WriteString(other)
+			asm.Parse(path, &bb)
+			bb.Reset()
+			bb.WriteString(strings.Repeat("; scribble\n", 1+len(x)/11))
+			held["ParseBytes, slice overwritten afterwards"], _ = asm.ParseBytes(path, raw)
+			for i := range raw {
+				raw[i] = '#'
+			}
+			held["ParseFile, file rewritten afterwards"], _ = asm.ParseFile(path)
+			os.WriteFile(path, []byte(other), 0o644)
+			asm.ParseFile(path)
+		}); p != nil {
+			hx.Fail(t, test, "ll", x, "parsing from reused storage panics: %s", p)
+		}
+		for name, m := range held {
+			if m == nil {
+				hx.Fail(t, test, "ll", x, "%s: rejected although ParseString accepted", name)
+			}
+			s, pp := lx.Print(m)
+			if pp != nil || s != first.text {
+				hx.Fail(t, test, "ll", x, "%s: the module held by the caller prints differently once the input's storage is reused (%v)\n%s", name, pp, firstDiff(first.text, s))
+			}
+		}
+		hx.HistN("held_modules_after_input_storage_reuse", len(held))
+	}
 	os.RemoveAll(dir)
 }
 
